@@ -1,0 +1,58 @@
+//go:build verif
+
+// Contracts for the deductive checker in /verif (comment-only; compiled only with -tags verif).
+package merge
+
+// getRow: the row of m in one layer (-1: base), rearranged into the merged column layout; nil iff m has no row there.
+//@ func (*RowResolver).getRow
+//@   props C05
+//@   requires resolverWf(r) && mergeWf(r, m) && -1 <= layer && layer < len(m.Others)
+//@   modifies nothing
+//@   ensures [C05] result1 == nil ==> ((result0 == nil) <==> layerNil(m, layer))
+//@   ensures [C05] result1 == nil && result0 != nil ==> len(result0) == r.nCols && fresh(result0)
+
+//@ func (*RowResolver).tryResolve
+//@   props C05
+//@   requires resolverWf(r) && mergeWf(r, m)
+//@   modifies m.*, r.rows.*, region(r.rows.Values), region(r.rows.Layers)
+//@   final [C05] err == nil ==> len(m.ResolvedRow) == r.nCols && keptAll(r, m, baseRow, r.nCols)
+//@   loop 1 invariant 0 <= iter && iter <= len(m.Others) && uniqSums != nil && fresh(layersWhereRowIsRemoved)
+//@   loop 1 invariant forall(k, member(uniqSums, k) ==> 0 <= uniqSums[k] && uniqSums[k] < len(m.Others) && m.Others[uniqSums[k]] != nil)
+//@   loop 1 invariant forall(k, 0, len(layersWhereRowIsRemoved), 0 <= layersWhereRowIsRemoved[k] && layersWhereRowIsRemoved[k] < len(m.Others))
+//@   loop 1 decreases len(m.Others) - iter
+//@   loop 2 invariant rowsWf(r)
+//@   loop 2 invariant rowsAddedWf(r)
+//@   loop 2 invariant forall(k, 0, len(layersWhereRowIsRemoved), 0 <= layersWhereRowIsRemoved[k] && layersWhereRowIsRemoved[k] < len(m.Others))
+//@   loop 2 invariant len(layersWhereRowIsRemoved) == 0 || reg(layersWhereRowIsRemoved) != reg(r.rows.Layers)
+//@   loop 2 invariant (fresh(r.rows.Values) || reg(r.rows.Values) == old(reg(r.rows.Values))) && (fresh(r.rows.Layers) || reg(r.rows.Layers) == old(reg(r.rows.Layers)))
+//@   loop 2 invariant forall(k, member(uniqSums, k) ==> 0 <= uniqSums[k] && uniqSums[k] < len(m.Others) && m.Others[uniqSums[k]] != nil)
+//@   loop 3 invariant rowsWf(r) && rowsAddedWf(r)
+//@   loop 3 invariant 0 <= i && i <= r.nCols && len(m.ResolvedRow) == r.nCols && m.UnresolvedCols != nil && (baseRow == nil || len(baseRow) == r.nCols)
+//@   loop 3 invariant forall(k, 0, len(layersWhereRowIsRemoved), 0 <= layersWhereRowIsRemoved[k] && layersWhereRowIsRemoved[k] < len(m.Others))
+//@   loop 3 local
+//@   loop 3 decreases r.nCols - i
+//@   loop 3 invariant [C05] distinctRows(r, m, baseRow)
+//@   loop 3 invariant [C05] keptAll(r, m, baseRow, i)
+//@   loop 4 invariant 0 <= iter && iter <= len(layersWhereRowIsRemoved)
+//@   loop 4 decreases len(layersWhereRowIsRemoved) - iter
+//@   loop 5 invariant 0 <= iter && iter <= len(r.rows.Values) && rowsWf(r) && rowsAddedWf(r) && len(m.ResolvedRow) == r.nCols && m.UnresolvedCols != nil
+//@   loop 5 invariant [C05] distinctRows(r, m, baseRow) && 0 <= i && i < r.nCols && (baseRow == nil || len(baseRow) == r.nCols)
+//@   loop 5 invariant [C05] member(r.cd.BaseIdx, i) ==> add == nil
+//@   loop 5 invariant [C05] member(r.cd.BaseIdx, i) && !unres(m, i) ==> forall(jj, 0, iter, modifiedAt(r, baseRow, jj, i) ==> mod != nil && *mod == r.rows.Values[jj][i])
+//@   loop 5 invariant [C05] member(r.cd.BaseIdx, i) && !unres(m, i) && mod != nil ==> m.ResolvedRow[i] == *mod
+//@   loop 5 local
+//@   loop 5 decreases len(r.rows.Values) - iter
+
+// Untouched base rows are carried over into the result. The rows collected so far are laid out like c.cd.Names.
+// Call-site obligations on Sorter.AddRow (cur: index of the row in its block):
+//   #1 a base row of the merged width is passed rearranged into the merged layout (each base column at its merged position)
+//   #2 every row passed has the merged width
+//@ func (*RowCollector).collectRowsThatStayedTheSame
+//@   props C05
+//@   requires c != nil && c.cd != nil && c.baseT != nil && c.discardedRows != nil && c.resolvedRows != nil && len(c.cd.Names) <= 1048576
+//@   requires forall(k, member(c.cd.BaseIdx, k) ==> c.cd.BaseIdx[k] < len(c.cd.Names))
+//@   callsite AddRow [C05]: len(blk[cur]) == len(c.cd.Names) ==> len(row) == len(c.cd.Names) && forall(k, 0, len(row), member(c.cd.BaseIdx, k) ==> row[k] == blk[cur][c.cd.BaseIdx[k]])
+//@   callsite AddRow [C05]: len(row) == len(c.cd.Names)
+//@   loop 1 invariant 0 <= iter && iter <= len(c.baseT.Blocks) && c.cd != nil && c.baseT != nil
+//@   loop 2 invariant 0 <= iter && iter <= len(blk) && c.cd != nil && c.baseT != nil
+//@   loop 2 invariant forall(k, 0, len(blk), len(blk[k]) <= 1048576) && (len(blk) == 0 || reg(blk) != reg(c.resolvedRows.current))
